@@ -492,7 +492,7 @@ func reifyValue(
 		}
 
 		newMap := reflect.MakeMap(baseType)
-		if err := reifyInto(opts.opts, newMap, sub); err != nil {
+		if err := reifyMap(opts.opts, newMap, sub, opts.validators); err != nil {
 			return reflect.Value{}, err
 		}
 		return pointerize(t, baseType, newMap), nil
